@@ -40,9 +40,16 @@ Definition snap_sess (sn : dsnap) (mac : N) : option (N * N * bool) :=
 Definition dcheck (sn : dsnap) (starts stops : list N) (mac ip cid sid : N) : option N :=
   if ahas mac (sn_alloc sn) || negb (smem ip (sn_avail sn) || smem ip (sn_unavail sn)) then Some 0
   else if smem ip (sn_nat sn) then Some 1
-  else if smem ip (sn_qos sn) then Some 2
+  else if smem ip (sn_qos sn) || smem ip (sn_qosi sn) || smem ip (sn_qost sn) then Some 2
+  (* a cache entry answers for the session when it is keyed by its MAC or circuit-id, or when it names
+     the session's MAC (circuit_id_map) or address (circuit_id_subscribers, VLAN map) under ANY key —
+     an entry left under a circuit-id the lease no longer records is such a dead binding; likewise the
+     slow path's circuit-ID index *)
   else if ahas mac (sn_cmac sn)
           || (negb (cid =? 0) && (ahas cid (sn_chash sn) || ahas cid (sn_csub sn)))
+          || existsb (fun p => snd p =? mac) (sn_chash sn)
+          || existsb (fun p => snd p =? ip) (sn_csub sn)
+          || existsb (fun p => fst (snd p) =? mac) (sn_bycid sn)
           || existsb (fun p => snd p =? ip) (sn_cvlan sn) then Some 3
   else if negb (sid =? 0) && (1 <=? count sid starts) && negb (count sid stops =? 1) then Some 4
   else None.
@@ -115,7 +122,7 @@ Definition paccept (st : pss) (o : pop) (r : pout) : pss + N :=
   (* (instance, id, needs the eBPF callback) of the sessions this operation ends; None = it addresses a session that is gone *)
   let by_frame (id mac : N) := match prow_by_id prev id mac with Some row => Some [(prow_inst row, fst row, false)] | None => None end in
   let by_obj (i : N) := match prow_by_inst prev i with Some row => Some [(i, fst row, true)] | None => None end in
-  let ended : option (list (N * N * bool)) :=
+  let ended1 (o : pop) : option (list (N * N * bool)) :=
     match o with
     | Padt id mac | LcpTerm id mac | Pap id mac false => by_frame id mac
     | IdleTick => Some (map (fun row => (prow_inst row, fst row, false)) (filter prow_stale (pn_tbl prev)))
@@ -127,12 +134,26 @@ Definition paccept (st : pss) (o : pop) (r : pout) : pss + N :=
     | TdAll _ => Some (map (fun row => (prow_inst row, fst row, true)) (pn_tbl prev))
     | _ => Some []
     end in
+  let ended : option (list (N * N * bool)) :=
+    match o with
+    | POverlap a b =>
+        (* both paths are judged against the state before the overlap; a session both end is ended once *)
+        match ended1 a, ended1 b with
+        | Some l1, Some l2 => Some (l1 ++ filter (fun e => negb (existsb (fun f => fst (fst f) =? fst (fst e)) l1)) l2)
+        | Some l1, None => Some l1
+        | None, Some l2 => Some l2
+        | None, None => None
+        end
+    | _ => ended1 o
+    end in
   let check1 (e : N * N * bool) : option N :=
     let '(i, id, cb) := e in
     let ip := match aget i (pn_alloc prev) with Some ip => ip | None => 0 end in
     if ahas i (pn_alloc sn) || (negb (ip =? 0) && negb (smem ip (pn_avail sn))) then Some 0
     else if cb && negb (existsb (fun ev => (fst ev =? 3) && (snd ev =? id)) (po_ev r)) then Some 3
-    else if 1 <? count i stops then Some 5
+    else if 1 <? count i stops then Some 5                                   (* one Accounting-Stop *)
+    else if 1 <? count id (evs 3 (po_ev r)) then Some 5                      (* the fast-path removal once *)
+    else if negb (ip =? 0) && (1 <? count ip (pn_avail sn)) then Some 5      (* the address released once *)
     else None in
   match ended with
   | None => if unchanged then inl {| q_snap := sn; q_stops := stops |} else inr 5
